@@ -298,6 +298,16 @@ func init() {
 		}
 		return fallThrough{}
 	}
+	// proto.Clone uses reflection-driven merge tables; a deep copy is its contract.
+	protoClone := func(fr *frame, args []value) value {
+		m := args[0].(iface)
+		if m.t == nil {
+			return m
+		}
+		return iface{m.t, deepClone(m.v, map[*value]*value{})}
+	}
+	externals["github.com/cosmos/gogoproto/proto.Clone"] = protoClone
+	externals["github.com/golang/protobuf/proto.Clone"] = protoClone
 	registerFmt()
 	registerErrors()
 }
